@@ -252,7 +252,7 @@ def _env():
 
 
 MEM_CAP_KB = int(os.environ.get('VERIF_KANI_MEM_KB', str(10 * 1024 * 1024)))   # per cbmc process
-HARNESS_TIMEOUT = os.environ.get('VERIF_KANI_HARNESS_TIMEOUT', '300s')
+HARNESS_TIMEOUT = os.environ.get('VERIF_KANI_HARNESS_TIMEOUT', '600s')
 KANI_FLAGS = ['-Z', 'function-contracts', '-Z', 'unstable-options', '--no-overflow-checks',
               '--harness-timeout', HARNESS_TIMEOUT]
 # --no-overflow-checks removes only CBMC's own NaN / float-overflow / div-by-zero
@@ -393,7 +393,7 @@ def run_for_property(pid, repo, tier, seed, jobs=None):
         return None
     names = [n for n, _ in sel]
     if jobs is None:
-        jobs = int(os.environ.get('VERIF_KANI_JOBS', '5'))
+        jobs = int(os.environ.get('VERIF_KANI_JOBS', '8'))
     r = run_harnesses(names, jobs=jobs, timeout=int(os.environ.get('VERIF_KANI_TIMEOUT', '2400')))
     out['cmds'].append('(cd build/kani && cargo kani %s -j %d --harness <%d harnesses>)' % (
         ' '.join(KANI_FLAGS), jobs, len(names)))
